@@ -10,7 +10,16 @@ GOENV = dict(os.environ, GOFLAGS="-mod=mod", GOPROXY="off", GOSUMDB="off", GOTOO
 
 
 def sh(cmd, cwd=None, timeout=1200):
-    p = subprocess.run(cmd, cwd=cwd, env=GOENV, capture_output=True, text=True, timeout=timeout, shell=isinstance(cmd, str))
+    # the pinned tests share os.TempDir()/csvq_*_test: give every run a private TMPDIR
+    tmp = tempfile.mkdtemp(prefix="seedtmp-")
+    try:
+        return _sh(cmd, cwd, timeout, dict(GOENV, TMPDIR=tmp))
+    finally:
+        shutil.rmtree(tmp, ignore_errors=True)
+
+
+def _sh(cmd, cwd, timeout, env):
+    p = subprocess.run(cmd, cwd=cwd, env=env, capture_output=True, text=True, timeout=timeout, shell=isinstance(cmd, str))
     return p.returncode, (p.stdout + p.stderr)
 
 
@@ -27,6 +36,10 @@ def run_demo(src, wt, meta):
         shutil.copyfile(tests[0], dst)
         try:
             run = re.search(r"-run\s+(\S+)", text)
+            if "-race" in text:
+                tags = tags + ["-race"]
+                os.environ["CGO_ENABLED"] = "1"
+                GOENV["CGO_ENABLED"] = "1"
             cmd = ["go", "test", "-vet=off", "-count=1"] + tags + (["-run", run.group(1).strip("'\"`")] if run else []) + ["./" + pkg + "/"]
             return sh(cmd, cwd=str(wt))
         finally:
